@@ -25,44 +25,57 @@ type ignore struct {
 	ignoreNextLine ignoredRules
 	ignoreThisLine ignoredRules
 	ignoreRange    ignoredRules
+
+	// statements whose comments are currently set up: a bare block statement is set up
+	// both as a statement and as a block and its comments must count once
+	asStatement map[*ast.Meta]bool
 }
 
+// ignoredRules counts how many active ignore comments cover all rules / each rule,
+// so that a comment that goes out of scope only takes away what it added itself
+// (for example a falco-ignore-next-line inside a block that is itself ignored).
 type ignoredRules struct {
-	all   bool
-	rules map[Rule]bool
+	all   int
+	rules map[Rule]int
 }
 
 func ignoreRules(ignoredRules *ignoredRules, rules []Rule) {
-	ignoreAllRules := len(rules) == 0
-
-	if ignoreAllRules {
-		ignoredRules.all = true
-		ignoredRules.rules = make(map[Rule]bool)
+	if len(rules) == 0 {
+		ignoredRules.all++
 		return
 	}
 
-	ignoredRules.all = false
 	if ignoredRules.rules == nil {
-		ignoredRules.rules = make(map[Rule]bool)
+		ignoredRules.rules = make(map[Rule]int)
 	}
 	for _, r := range rules {
-		ignoredRules.rules[r] = true
+		ignoredRules.rules[r]++
 	}
 }
 
 func unignoreRules(ignoredRules *ignoredRules, rules []Rule) {
-	unignoreAllRules := len(rules) == 0
-
-	if unignoreAllRules {
-		ignoredRules.all = false
-		ignoredRules.rules = make(map[Rule]bool)
+	if len(rules) == 0 {
+		if ignoredRules.all > 0 {
+			ignoredRules.all--
+		}
 		return
 	}
 
-	ignoredRules.all = false
 	for _, r := range rules {
-		delete(ignoredRules.rules, r)
+		if ignoredRules.rules[r] > 0 {
+			ignoredRules.rules[r]--
+		}
 	}
+}
+
+// falco-ignore-end without rule names re-enables all rules
+func endIgnoreRange(ignoredRules *ignoredRules, rules []Rule) {
+	if len(rules) == 0 {
+		ignoredRules.all = 0
+		ignoredRules.rules = make(map[Rule]int)
+		return
+	}
+	unignoreRules(ignoredRules, rules)
 }
 
 func parseIgnoreComment(comment string) (string, []Rule) {
@@ -95,6 +108,11 @@ func parseIgnoreComment(comment string) (string, []Rule) {
 // Then leading comments accept falco-ignore-next-line, falco-ignore-start, falco-ignore-end
 // trailing comments accept falco-ignore
 func (i *ignore) SetupStatement(meta *ast.Meta) {
+	if i.asStatement == nil {
+		i.asStatement = make(map[*ast.Meta]bool)
+	}
+	i.asStatement[meta] = true
+
 	// Find ignore signature in leading comments
 	for _, c := range meta.Leading {
 		switch ignoreType, rules := parseIgnoreComment(c.String()); ignoreType {
@@ -103,7 +121,7 @@ func (i *ignore) SetupStatement(meta *ast.Meta) {
 		case falcoIgnoreStart:
 			ignoreRules(&i.ignoreRange, rules)
 		case falcoIgnoreEnd:
-			unignoreRules(&i.ignoreRange, rules)
+			endIgnoreRange(&i.ignoreRange, rules)
 		}
 	}
 
@@ -118,6 +136,8 @@ func (i *ignore) SetupStatement(meta *ast.Meta) {
 
 // Clean up common statements, declarations
 func (i *ignore) TeardownStatement(meta *ast.Meta) {
+	delete(i.asStatement, meta)
+
 	for _, c := range meta.Leading {
 		ignoreType, rules := parseIgnoreComment(c.String())
 		if ignoreType == falcoIgnoreNextLine {
@@ -145,6 +165,9 @@ func (i *ignore) TeardownStatement(meta *ast.Meta) {
 //
 // So we need to divide parsing leading and trailing comment by setup and teardown
 func (i *ignore) SetupBlockStatement(meta *ast.Meta) {
+	if i.asStatement[meta] {
+		return // already done by SetupStatement
+	}
 	for _, c := range meta.Leading {
 		switch ignoreType, rules := parseIgnoreComment(c.String()); ignoreType {
 		case falcoIgnoreNextLine:
@@ -152,14 +175,16 @@ func (i *ignore) SetupBlockStatement(meta *ast.Meta) {
 		case falcoIgnoreStart:
 			ignoreRules(&i.ignoreRange, rules)
 		case falcoIgnoreEnd:
-			unignoreRules(&i.ignoreRange, rules)
+			endIgnoreRange(&i.ignoreRange, rules)
 		}
 	}
 }
 func (i *ignore) TeardownBlockStatement(meta *ast.Meta) {
+	// next-line and this-line comments of a bare block statement are torn down by TeardownStatement
+	asStatement := i.asStatement[meta]
 	for _, c := range meta.Leading {
 		ignoreType, rules := parseIgnoreComment(c.String())
-		if ignoreType == falcoIgnoreNextLine {
+		if ignoreType == falcoIgnoreNextLine && !asStatement {
 			unignoreRules(&i.ignoreNextLine, rules)
 		}
 	}
@@ -167,9 +192,11 @@ func (i *ignore) TeardownBlockStatement(meta *ast.Meta) {
 	for _, c := range meta.Trailing {
 		switch ignoreType, rules := parseIgnoreComment(c.String()); ignoreType {
 		case falcoIgnoreThisLine:
-			unignoreRules(&i.ignoreThisLine, rules)
+			if !asStatement {
+				unignoreRules(&i.ignoreThisLine, rules)
+			}
 		case falcoIgnoreEnd:
-			unignoreRules(&i.ignoreRange, rules)
+			endIgnoreRange(&i.ignoreRange, rules)
 		}
 	}
 
@@ -177,16 +204,16 @@ func (i *ignore) TeardownBlockStatement(meta *ast.Meta) {
 	// brace, are the block's infix comments: a range can end there.
 	for _, c := range meta.Infix {
 		if ignoreType, rules := parseIgnoreComment(c.String()); ignoreType == falcoIgnoreEnd {
-			unignoreRules(&i.ignoreRange, rules)
+			endIgnoreRange(&i.ignoreRange, rules)
 		}
 	}
 }
 
 func (i *ignore) IsEnable(rule Rule) bool {
-	return i.ignoreNextLine.all ||
-		i.ignoreThisLine.all ||
-		i.ignoreRange.all ||
-		i.ignoreNextLine.rules[rule] ||
-		i.ignoreThisLine.rules[rule] ||
-		i.ignoreRange.rules[rule]
+	return i.ignoreNextLine.all > 0 ||
+		i.ignoreThisLine.all > 0 ||
+		i.ignoreRange.all > 0 ||
+		i.ignoreNextLine.rules[rule] > 0 ||
+		i.ignoreThisLine.rules[rule] > 0 ||
+		i.ignoreRange.rules[rule] > 0
 }
